@@ -4,7 +4,7 @@ import pk, src
 from common import jhash, first_diff
 from pkgrun import *
 
-PROF = profile(p_table=0.3, p_span=0.3, p_vmerge=0.3, p_rpr=0.6, p_style=0.4, p_list=0.35, p_comments=0.9, p_comment_marker=0.12, straddle_ranges=0.4, p_core=0.7, p_textbox=0.06)
+PROF = profile(no_textbox_in_link=True, p_table=0.3, p_span=0.3, p_vmerge=0.3, p_rpr=0.6, p_style=0.4, p_list=0.35, p_comments=0.9, p_comment_marker=0.12, straddle_ranges=0.4, p_core=0.7, p_textbox=0.06)
 RULE = ('packages from the union of the nesting / table / formatting profiles; all pairs of option settings: html on vs off (same nesting '
         'skeleton, paragraph count, lineage, styles, list positions, images, core properties, number of comments), duplicate_merged_cells on '
         'vs off (records that are not copies carry the same runs in the same order; no merged cell at all => identical output; ragged tables with gridSpan and vMerge in any combination, cells holding paragraphs only: same cells per row and every non-copy record at the same address), image folder '
@@ -72,6 +72,20 @@ def one(ctx, data, meta=None):
                 if who == 0: ctx.fail('switching html changes structure (shape / paragraph count / lineage / style / list position / images / properties / number of comments)', case, {'where': d[0], 'html_off': d[1], 'html_on': d[2]})
                 else: ctx.diff('relation html-invariance holds on the model', case, 'holds?', {'where': d[0]})
                 good = False
+        if who == 0:
+            # ... and the strings differ only by tags and escapes: deleting the formatting tags and unescaping gives the html-off string
+            from props.c07 import analyse
+            for dup in (True, False):
+                for v in VIEWS[:5]:
+                    po, ph_ = obs[(False, dup)][0].get(v + '_pars'), obs[(True, dup)][0].get(v + '_pars')
+                    if not po or not ph_ or 'ok' not in po or 'ok' not in ph_: continue
+                    ro, rh = flat(po['ok'], 4), flat(ph_['ok'], 4)
+                    if len(ro) != len(rh): continue
+                    for k, (x, y) in enumerate(zip(ro, rh)):
+                        err, proj, _f = analyse(''.join(y['runs']))
+                        if err is None and proj != ''.join(x['runs']):
+                            ctx.fail('switching html changes a string other than by adding tags and escapes', case_payload(data, dup=dup, attribute=v, paragraph_index=k),
+                                     {'html_on': ''.join(y['runs']), 'projected': proj, 'html_off': ''.join(x['runs'])}); good = False; break
         for html in (False, True):
             a, b = noncopy_runs(obs[(html, True)][who]), noncopy_runs(obs[(html, False)][who])
             if a is None or b is None: continue
